@@ -313,6 +313,10 @@ def ob_null_decision(env):
     me.psi_sep = list(psis)
     me.x_points = [Point2D(float(k), 0.0) for k in range(n)]
     me.psi_sol = env.real("psi_sol", lo=-9, hi=9)
+    me.psi_sol_inner = env.real("psi_sol_inner", lo=-9, hi=9)
+    # the options the resolved limit came from: an explicitly given psi_sol overrides psinorm_sol, so the two need not agree
+    me.user_options = types.SimpleNamespace(psinorm_sol=env.real("option_psinorm_sol", lo=0.5, hi=3), psinorm_sol_inner=env.real("option_psinorm_sol_inner", lo=0.5, hi=3),
+                                            psi_sol=me.psi_sol, psi_sol_inner=me.psi_sol_inner)
     inside = [bool(env.choose(2)) for _ in range(n)] if sym else [bool(v) for v in (list(env.values.get("__prefix__", [])) + [1, 1, 1])[:n]]
 
     def inside_wall(p):
